@@ -58,8 +58,8 @@ def shards(tier):
         else:
             out.append({"part": "one", "kind": kind, "tier": tier, "n": n, "first": None})
     for kind in KINDS:
-        for length in ([17, 40] if not big else [17, 40, 130, 300]):
-            out.append({"part": "long", "kind": kind, "length": length, "period": 3 if not big else 4})
+        for length in ([17, 40, 1025] if not big else [17, 40, 130, 300, 1025, 65537]):
+            out.append({"part": "long", "kind": kind, "length": length, "period": (3 if not big else 4) if length < 1000 else 2})
     for k1, k2 in (PAIRS_T if big else PAIRS_Q):
         n = 4 if big else 3
         for first in range(len(V.alphabet(k1, "key"))):
@@ -95,12 +95,19 @@ def group_rows(keycells, n):
     return groups
 
 
+PRIME = (1 << 61) - 1
+
+
 def digest_of(ids):
-    return sum((i + 1) * BASE ** p for p, i in enumerate(ids))
+    """Order-sensitive rolling digest of a list of row ids (fits an int64 column)."""
+    h = 0
+    for i in ids:
+        h = (h * BASE + i + 1) % PRIME
+    return h
 
 
 def digest_fn(d):
-    return int(sum((int(i) + 1) * BASE ** p for p, i in enumerate(d.id)))
+    return digest_of(int(i) for i in d.id)
 
 
 def helper_pair(h, kw, col):
@@ -217,7 +224,8 @@ def run_op(d, op, by, n, groups, cells, rec):
         rec.outcome(("split", tuple(map(tuple, got))))
         return None
     if op == "modify":
-        out = d.group_by(*by).modify(m=lambda x: x.nrow, dg=digest_fn, r=lambda x: x.id - x.id.min())
+        out = d.group_by(*by).modify(m=lambda x: x.nrow, dg=digest_fn, r=lambda x: x.id - x.id.min(),
+                                     h=lambda x: x.nrow / 2 if x.nrow > 1 else 0)  # float for some groups, int for others
         rec.state(V.frame_key(out))
         if out.nrow != n:
             return f"grouped modify returned {out.nrow} rows for {n}"
@@ -228,9 +236,11 @@ def run_op(d, op, by, n, groups, cells, rec):
         for g in groups:
             for i in g[1]:
                 of[i] = g
-        ms, dgs, rs = V.cells(out["m"]), V.cells(out["dg"]), V.cells(out["r"])
+        ms, dgs, rs, hs = V.cells(out["m"]), V.cells(out["dg"]), V.cells(out["r"]), V.cells(out["h"])
         for i in range(n):
             g = of[i]
+            if not V.same_value(hs[i], len(g[1]) / 2 if len(g[1]) > 1 else 0):
+                return f"row {i} (group {g[0]} rows {g[1]}): h={hs[i]!r}, expected {len(g[1]) / 2 if len(g[1]) > 1 else 0} (column dtype {out['h'].dtype})"
             if ms[i] != len(g[1]) or dgs[i] != digest_of(g[1]) or rs[i] != i - min(g[1]):
                 return f"row {i} (group {g[0]} rows {g[1]}): m={ms[i]} dg={dgs[i]} r={rs[i]}, expected {len(g[1])}, {digest_of(g[1])}, {i - min(g[1])}"
         rec.outcome(("modify", tuple(ms)))
